@@ -743,7 +743,27 @@ pub fn conflict_gadget(rng: &mut Rng) -> (World, Vec<ProblemSpec>) {
     };
     let g = pkg(&mut w, 0, rng.range(2, 3));
     let root_vs = vs(&mut w, 0, g.clone());
-    match rng.below(3) {
+    match rng.below(4) {
+        3 => {
+            // diamond whose parent is abandoned later: g1 -> a (a1 preferred), b ; b1 -> exactly a2 ;
+            // g1 -> c ; c1 -> d ; d1 constrains g away from g1. In the end g2 is installed and nothing needs a.
+            let a = pkg(&mut w, 1, 2);
+            let b = pkg(&mut w, 2, 1);
+            let c = pkg(&mut w, 3, 1);
+            let d = pkg(&mut w, 4, 1);
+            let aa = vs(&mut w, 1, a.clone());
+            let ba = vs(&mut w, 2, b.clone());
+            let ca = vs(&mut w, 3, c.clone());
+            let da = vs(&mut w, 4, d.clone());
+            let a2 = vs(&mut w, 1, vec![a[1]]);
+            let not_g1 = vs(&mut w, 0, g[1..].to_vec());
+            let mut reqs = vec![aa, ba, ca];
+            rng.shuffle(&mut reqs);
+            set(&mut w, g[0], reqs, vec![]);
+            set(&mut w, b[0], vec![a2], vec![]);
+            set(&mut w, c[0], vec![da], vec![]);
+            set(&mut w, d[0], vec![], vec![not_g1]);
+        }
         0 => {
             // g1 -> x, y ; x1 constrains y away
             let x = pkg(&mut w, 1, 1);
